@@ -422,7 +422,7 @@ def assemble(unit_file, canary=False, mutate_spec=None):
                     buf = []
                     loops[k] = [buf, [t for t in kv2.get("tags", "").split(",") if t] or body_tags]
                 elif s2.startswith("//@ CLOSURE"):
-                    m = re.match(r"//@ CLOSURE\s+(\d+)\s+(\|.*\|)\s*(tags=\S+)?\s*$", s2)
+                    m = re.match(r"//@ CLOSURE\s+(\d+)\s+(\|.*?)\s*(tags=\S+)?\s*$", s2)
                     if not m:
                         raise Infra("%s:%d: bad CLOSURE directive" % (p2, ln2))
                     buf = []
@@ -573,6 +573,10 @@ def run_verus(path, extra=None, timeout=900, threads=None):
 
 VIOLATION_MSGS = [
     ("postcondition not satisfied", "ensures"),
+    ("unable to prove post-condition of closure", "ensures"),
+    ("unable to prove precondition of closure", "requires@callsite"),
+    ("unable to prove assertion", "assert"),
+    ("Call to non-static function fails to satisfy", "requires@callsite"),
     ("precondition not satisfied", "requires@callsite"),
     ("invariant not satisfied", "invariant"),
     ("possible arithmetic underflow/overflow", "overflow"),
